@@ -1,4 +1,5 @@
 import A2Verif.Lemmas.NibbleRT
+import A2Verif.Lemmas.FlatLaws
 /-!
 # Property C08 — sector and block storage is exact and non-interfering
 
@@ -77,5 +78,198 @@ zero sector to another valid disk byte breaks the checksum; a non-table byte is 
 example : (match dec62 ((enc62 (List.replicate 256 0)).set 5 0x97) with | .error .badChecksum => true | _ => false) = true ∧
     (match dec62 ((enc62 (List.replicate 256 0)).set 5 0xD5) with | .error .invalidByte => true | _ => false) = true := by
   decide +kernel
+
+
+/-!
+## Part 2: the flat formats (DO, PO, D13, IMG, 2MG with DO/PO payload)
+
+`StoreLaws wf valid unit read write` (defined in `Lemmas/FlatLaws.lean`) is, for one addressing mode
+of one format and for ALL images, addresses and data:
+* a write to a valid address succeeds, keeps the image well formed, and afterwards that address reads
+  as the data zero-padded / truncated to the unit size (`quantize`), and every OTHER valid address
+  reads exactly as before (no aliasing, non-interference);
+* a read of a valid address succeeds and yields a whole unit.
+`Refuses wf valid read write`: every invalid address is answered with an error — not a panic, not
+data — and the image is unchanged.
+
+The flag `g` of the model functions says whether the source has the bounds check for that arm
+(extracted from the working tree into `A2Verif.Gen.C08Guards`).  `StoreLaws` holds for both values;
+`Refuses` holds with the check and is FALSE without it (concrete witnesses below, replayed on the
+real code by harness cases idx 90000-90006).
+-/
+section flat
+open A2Verif.Model.Flat A2Verif.Gen
+
+/-- C08 for DOS-ordered images addressed by `Block::DO([track,sector])`, any track/sector counts. -/
+theorem do_block_laws (g : Bool) : StoreLaws DOImg.wf DOImg.validTS (fun _ _ => 256)
+    (fun i a => i.readBlock g (.dos a.1 a.2)) (fun i a d => i.writeBlock g (.dos a.1 a.2) d) :=
+  DOImg.dos_laws g
+
+example : witDO.wf ∧ witDO.validTS (1, 15) := ⟨witDO_wf.1, by decide⟩
+
+/-- C08 "invalid addresses are refused" for `Block::DO`, given the bounds check. -/
+theorem do_block_refused : Refuses DOImg.wf DOImg.validTS
+    (fun i a => i.readBlock true (.dos a.1 a.2)) (fun i a d => i.writeBlock true (.dos a.1 a.2) d) :=
+  DOImg.dos_refuses
+
+/-- Without the bounds check the refusal law is false: on a well-formed 2-track image `[0,16]` is
+accepted (it is the storage of `[1,0]`, see `witDO_facts`) and `[2,0]` panics. -/
+theorem do_block_unchecked_not_refused : ¬ Refuses DOImg.wf DOImg.validTS
+    (fun i a => i.readBlock false (.dos a.1 a.2)) (fun i a d => i.writeBlock false (.dos a.1 a.2) d) := by
+  intro h
+  have := (h.refused witDO (0, 16) [] witDO_wf.1 (by decide)).1
+  rw [witDO_facts.1] at this
+  exact absurd this (by decide)
+
+/-- C08 for the physical sector interface of DOS-ordered 16-sector images
+(`read_sector(cyl,head,sec)` through `DOS_PSEC_TO_DOS_LSEC`); the refusal law holds of the code as
+it is. -/
+theorem do_sector_laws : StoreLaws DOImg.wf16 DOImg.validCHS (fun _ _ => 256)
+    (fun i a => i.readSector a.1 a.2.1 a.2.2) (fun i a d => i.writeSector a.1 a.2.1 a.2.2 d) :=
+  DOImg.sector_laws
+
+theorem do_sector_refused : Refuses DOImg.wf16 DOImg.validCHS
+    (fun i a => i.readSector a.1 a.2.1 a.2.2) (fun i a d => i.writeSector a.1 a.2.1 a.2.2 d) :=
+  DOImg.sector_refuses
+
+example : witDO.wf16 ∧ witDO.validCHS (1, 0, 15) := ⟨witDO_wf.2.1, by decide⟩
+
+/-- C08 for ProDOS blocks on a DOS-ordered 16-sector image (two 256-byte halves located through
+`ts_from_prodos_block`): the halves of one block never collide and different blocks never share a
+sector. -/
+theorem do_prodos_laws (g : Bool) : StoreLaws DOImg.wfPO DOImg.validPO (fun _ _ => 512)
+    (fun i b => i.readBlock g (.po b)) (fun i b d => i.writeBlock g (.po b) d) :=
+  DOImg.po_laws g
+
+theorem do_prodos_refused : Refuses DOImg.wfPO DOImg.validPO
+    (fun i b => i.readBlock true (.po b)) (fun i b d => i.writeBlock true (.po b) d) :=
+  DOImg.po_refuses
+
+theorem do_prodos_unchecked_not_refused : ¬ Refuses DOImg.wfPO DOImg.validPO
+    (fun i b => i.readBlock false (.po b)) (fun i b d => i.writeBlock false (.po b) d) := by
+  intro h
+  have := (h.refused witDO 16 [] witDO_wf.2.2 (by decide)).1
+  rw [witDO_facts.2.2.2] at this
+  exact absurd this (by decide)
+
+example : witDO.wfPO ∧ witDO.validPO 15 := ⟨witDO_wf.2.2, by decide⟩
+
+/-- C08 for ProDOS-ordered images. -/
+theorem po_block_laws (g : Bool) : StoreLaws POImg.wf POImg.valid (fun _ _ => 512)
+    (fun i b => i.readBlock g (.po b)) (fun i b d => i.writeBlock g (.po b) d) :=
+  POImg.po_laws g
+
+theorem po_block_refused : Refuses POImg.wf POImg.valid
+    (fun i b => i.readBlock true (.po b)) (fun i b d => i.writeBlock true (.po b) d) :=
+  POImg.po_refuses
+
+theorem po_block_unchecked_not_refused : ¬ Refuses POImg.wf POImg.valid
+    (fun i b => i.readBlock false (.po b)) (fun i b d => i.writeBlock false (.po b) d) := by
+  intro h
+  have := (h.refused witPO 2 [] witPO_wf (by decide)).1
+  rw [witPO_facts] at this
+  exact absurd this (by decide)
+
+example : witPO.wf ∧ witPO.valid 1 := ⟨witPO_wf, by decide⟩
+
+/-- C08 for 13-sector images, `Block::D13([track,sector])` and the physical sector interface. -/
+theorem d13_block_laws (g : Bool) : StoreLaws D13Img.wf D13Img.validTS (fun _ _ => 256)
+    (fun i a => i.readBlock g (.d13 a.1 a.2)) (fun i a d => i.writeBlock g (.d13 a.1 a.2) d) :=
+  D13Img.block_laws g
+
+theorem d13_block_refused : Refuses D13Img.wf D13Img.validTS
+    (fun i a => i.readBlock true (.d13 a.1 a.2)) (fun i a d => i.writeBlock true (.d13 a.1 a.2) d) :=
+  D13Img.block_refuses
+
+theorem d13_block_unchecked_not_refused : ¬ Refuses D13Img.wf D13Img.validTS
+    (fun i a => i.readBlock false (.d13 a.1 a.2)) (fun i a d => i.writeBlock false (.d13 a.1 a.2) d) := by
+  intro h
+  have := (h.refused witD13 (0, 13) [] witD13_wf (by decide)).1
+  rw [witD13_facts.1] at this
+  exact absurd this (by decide)
+
+theorem d13_sector_laws : StoreLaws D13Img.wf D13Img.validCHS (fun _ _ => 256)
+    (fun i a => i.readSector a.1 a.2.1 a.2.2) (fun i a d => i.writeSector a.1 a.2.1 a.2.2 d) :=
+  D13Img.sector_laws
+
+theorem d13_sector_refused : Refuses D13Img.wf D13Img.validCHS
+    (fun i a => i.readSector a.1 a.2.1 a.2.2) (fun i a d => i.writeSector a.1 a.2.1 a.2.2 d) :=
+  D13Img.sector_refuses
+
+example : witD13.wf ∧ witD13.validTS (1, 12) ∧ witD13.validCHS (1, 0, 12) := ⟨witD13_wf, by decide, by decide⟩
+
+/-- C08 for IBM sector dumps (IMG), physical sectors `(cyl, head, 1-based sector)` of any uniform
+geometry and sector size. -/
+theorem img_sector_laws (g : Bool) : StoreLaws IbmImg.wf IbmImg.validCHS (fun i _ => i.secSize)
+    (fun i a => i.readSector g a.1 a.2.1 a.2.2) (fun i a d => i.writeSector g a.1 a.2.1 a.2.2 d) :=
+  IbmImg.sector_laws g
+
+theorem img_sector_refused : Refuses IbmImg.wf IbmImg.validCHS
+    (fun i a => i.readSector true a.1 a.2.1 a.2.2) (fun i a d => i.writeSector true a.1 a.2.1 a.2.2 d) :=
+  IbmImg.sector_refuses
+
+/-- Without the head check `(cyl 0, head 2, sector 1)` of a two-sided image is accepted; it is the
+storage of `(1,0,1)` (`witIMG_facts`). -/
+theorem img_sector_unchecked_not_refused : ¬ Refuses IbmImg.wf IbmImg.validCHS
+    (fun i a => i.readSector false a.1 a.2.1 a.2.2) (fun i a d => i.writeSector false a.1 a.2.1 a.2.2 d) := by
+  intro h
+  have := (h.refused witIMG (0, 2, 1) [] witIMG_wf (by decide)).1
+  rw [witIMG_facts.1] at this
+  exact absurd this (by decide)
+
+example : witIMG.wf ∧ witIMG.validCHS (1, 1, 2) := ⟨witIMG_wf, by decide⟩
+
+/-- C08 for 2MG with a DOS-ordered payload: with the write-protect flag clear, all three addressing
+modes inherit the laws of the wrapped image (the wrapper only delegates). -/
+theorem mg_do_block_laws (g : Bool) :
+    StoreLaws (MgImg.wfDos DOImg.wf) (MgImg.validDos DOImg.validTS) (MgImg.unitDos (fun _ _ => 256))
+      (fun m (a : Nat × Nat) => m.readBlock g (.dos a.1 a.2)) (fun m a d => m.writeBlock g (.dos a.1 a.2) d) :=
+  MgImg.lift_dos _ _ _ _ _ _ _ (fun _ _ _ => rfl) (fun _ _ _ => rfl) (DOImg.dos_laws g)
+
+theorem mg_do_prodos_laws (g : Bool) :
+    StoreLaws (MgImg.wfDos DOImg.wfPO) (MgImg.validDos DOImg.validPO) (MgImg.unitDos (fun _ _ => 512))
+      (fun m (b : Nat) => m.readBlock g (.po b)) (fun m b d => m.writeBlock g (.po b) d) :=
+  MgImg.lift_dos _ _ _ _ _ _ _ (fun _ _ _ => rfl) (fun _ _ _ => rfl) (DOImg.po_laws g)
+
+theorem mg_do_sector_laws :
+    StoreLaws (MgImg.wfDos DOImg.wf16) (MgImg.validDos DOImg.validCHS) (MgImg.unitDos (fun _ _ => 256))
+      (fun m (a : Nat × Nat × Nat) => m.readSector a.1 a.2.1 a.2.2) (fun m a d => m.writeSector a.1 a.2.1 a.2.2 d) :=
+  MgImg.lift_dos _ _ _ _ _ _ _ (fun _ _ _ => rfl) (fun _ _ _ => rfl) DOImg.sector_laws
+
+/-- C08 for 2MG with a ProDOS-ordered payload. -/
+theorem mg_po_block_laws (g : Bool) :
+    StoreLaws (MgImg.wfPo POImg.wf) (MgImg.validPo POImg.valid) (MgImg.unitPo (fun _ _ => 512))
+      (fun m (b : Nat) => m.readBlock g (.po b)) (fun m b d => m.writeBlock g (.po b) d) :=
+  MgImg.lift_po _ _ _ _ _ _ _ (fun _ _ _ => rfl) (fun _ _ _ => rfl) (POImg.po_laws g)
+
+/-- a write-protected 2MG refuses every write and is unchanged -/
+theorem mg_write_protected (m : MgImg) (h : m.writeProtected = true) (g : Bool) (a : Block) (c hd s : Nat)
+    (d : List Nat) : m.writeBlock g a d = .err m ∧ m.writeSector c hd s d = .err m :=
+  MgImg.write_protected m h g a c hd s d
+
+example : MgImg.wfDos DOImg.wf ⟨false, .dos witDO⟩ ∧ MgImg.validDos DOImg.validTS ⟨false, .dos witDO⟩ (1, 3) :=
+  ⟨⟨rfl, witDO, rfl, witDO_wf.1⟩, ⟨witDO, rfl, by decide⟩⟩
+
+/-- The refusal law for the tree the check is running on: for each arm, if the translator found the
+bounds check the law holds of the model the driver runs, and if it did not, the law fails. -/
+theorem flat_refusal_current_tree :
+    (C08Guards.doBlockDO = true → Refuses DOImg.wf DOImg.validTS
+      (fun i a => i.readBlock C08Guards.doBlockDO (.dos a.1 a.2)) (fun i a d => i.writeBlock C08Guards.doBlockDO (.dos a.1 a.2) d)) ∧
+    (C08Guards.doBlockPO = true → Refuses DOImg.wfPO DOImg.validPO
+      (fun i b => i.readBlock C08Guards.doBlockPO (.po b)) (fun i b d => i.writeBlock C08Guards.doBlockPO (.po b) d)) ∧
+    (C08Guards.poBlock = true → Refuses POImg.wf POImg.valid
+      (fun i b => i.readBlock C08Guards.poBlock (.po b)) (fun i b d => i.writeBlock C08Guards.poBlock (.po b) d)) ∧
+    (C08Guards.d13Block = true → Refuses D13Img.wf D13Img.validTS
+      (fun i a => i.readBlock C08Guards.d13Block (.d13 a.1 a.2)) (fun i a d => i.writeBlock C08Guards.d13Block (.d13 a.1 a.2) d)) ∧
+    (C08Guards.imgHead = true → Refuses IbmImg.wf IbmImg.validCHS
+      (fun i a => i.readSector C08Guards.imgHead a.1 a.2.1 a.2.2) (fun i a d => i.writeSector C08Guards.imgHead a.1 a.2.1 a.2.2 d)) := by
+  refine ⟨?_, ?_, ?_, ?_, ?_⟩ <;> intro h <;> rw [h]
+  · exact do_block_refused
+  · exact do_prodos_refused
+  · exact po_block_refused
+  · exact d13_block_refused
+  · exact img_sector_refused
+
+end flat
 
 end A2Verif.C08
